@@ -40,7 +40,7 @@ func GenChapter(t *rapid.T, text TextFn) Chapter {
 // nameForms: %d is the file number. Blanks, non-ASCII letters and sub-delimiters
 // (notably '+') are legal in OCF file names (EPUB33 4.2.4) and must be matched
 // after percent-decoding the href (EPUB33 4.2.5, RFC 3986 2.1).
-var nameForms = []string{"ch%d", "ch%d", "chapter%d", "chapter %d", "ch+%d", "chapître%d", "第%d章", "c_%d-(a)", "ch%d&co", "Kapitel %d ä", "ch#%d", "part%d#final", "50%%off%d"}
+var nameForms = []string{"ch%d", "ch%d", "chapter%d", "chapter %d", "ch+%d", "chapître%d", "第%d章", "c_%d-(a)", "ch%d&co", "Kapitel %d ä", "ch#%d", "part%d#final", "50%%off%d", "ch%%41x%d"}
 var dirForms = []string{"", "", "Text/", "text/sub/", "xhtml/"}
 var extForms = []string{".xhtml", ".xhtml", ".xhtml", ".html", ".htm", ".xml"}
 var hrefStyles = []string{"", "", "uri", "lower", "full"}
@@ -200,6 +200,16 @@ func GenBook(t *rapid.T, maxChapters int, text TextFn) Book {
 		}
 		usedPaths[strings.ToLower(p)] = true
 		b.Decoys = append(b.Decoys, File{Path: p, Data: Chapter{Heading: text(t, "decoyHeading"), Paras: []string{text(t, "decoy")}}.XHTML(b.Version)})
+	}
+	// a file name that holds a literal "%41": its href is spelled "%2541"; the name decoded once more ("A") is a
+	// different file, and sometimes exists
+	for _, it := range b.Items {
+		if full := path.Join(opfDir, it.Path); strings.Contains(full, "%41") && !strings.HasPrefix(full, "../") {
+			if p := strings.ReplaceAll(full, "%41", "A"); !usedPaths[strings.ToLower(p)] && rapid.Bool().Draw(t, "decodedTwiceDecoy") {
+				usedPaths[strings.ToLower(p)] = true
+				b.Decoys = append(b.Decoys, File{Path: p, Data: Chapter{Heading: text(t, "decoyHeading"), Paras: []string{text(t, "decoy")}}.XHTML(b.Version)})
+			}
+		}
 	}
 	b.Opt.Zip = zipw.GenOrder(t, "zip")
 	if rapid.IntRange(0, 9).Draw(t, "opfPrefix") == 0 {
